@@ -238,7 +238,7 @@ reg(PropertySpec(
 # Contracts that carry obligations tagged for a property are run by that property's check (audit: tools/audit_registry.py lists every
 # (property, contract) pair whose tagged obligations would otherwise not be counted by the property's own check)
 _EXTRA = {
-    "C02": ["samplers.importance:ImportanceSampler.sample", "samples:Samples.__getitem__"],
+    "C02": ["samplers.importance:ImportanceSampler.sample", "samples:Samples.__getitem__", "samples:Samples.compute_weights"],
     "C04": ["flows.jax.flows:FlowJax.sample_and_log_prob", "flows.torch.flows:ZukoFlow.sample_and_log_prob"],
     "C05": ["samplers.mcmc:Emcee.sample", "samplers.mcmc:MiniPCN.sample"],
     "C08": ["aspire:Aspire.sample_posterior"],
